@@ -4,10 +4,17 @@
     - path and container lookup lemmas ([graft], [cut], [carr]);
     - read path: [boundary_invisible], [scan_shadow], [status_shadow] (no resurrection),
       monotonicity of creation indices;
-    - the generic frame lemma [frame_status] for a rewrite of the newest container;
-    - per-operation refinement lemmas against the plain specification tree
-      (status level, for every path at once) and preservation of the invariant [Inv];
-    - [step_refines] and the fold over arbitrary operation lists. *)
+    - the generic frame lemma [frame_status] for a rewrite of the newest container, and the
+      two write primitives [write1_status] (one entry + carriers) and [del_status];
+    - invariant [Inv] (indices decrease; no entry of a container other than a deletion marker is
+      dead on arrival), simulation relation [Sim R T] (= [Inv R], view of [R] equals the plain
+      tree [T] at every path, no root key in [T]);
+    - per-operation refinement lemmas [create_group_refines] ... [move_refines]
+      (the overlay operation and the plain-tree operation fail together or re-establish [Sim]),
+      [graft_sub_status] for the grafted snapshot of a copy;
+    - [step_refines], the fold over arbitrary operation lists [transparent],
+      [boundaries_unobservable], [viewmap_eq];
+    - [scan_pinned_refuted]: the child-resolution rule of the pinned code is not transparent. *)
 From stdpp Require Import gmap strings list.
 From MV Require Import IH5.Overlay.
 
@@ -850,6 +857,8 @@ Lemma witness_repaired :
   vget (run_m witness_ops) [(false, "touch"); (false, "a")] = Some (TData "i:3").
 Proof. vm_compute. done. Qed.
 
+Local Close Scope string_scope.
+
 (** ** Transparency for histories of the basic operations *)
 
 Lemma transparent_basic ops :
@@ -905,7 +914,7 @@ Proof.
   - apply elem_of_list_to_map_1'; [|by apply rel_snap_elem].
     intros y Hy%rel_snap_elem. congruence.
   - apply not_elem_of_list_to_map_1. intros Hin.
-    apply elem_of_list_fmap in Hin as ([r' y] & -> & Hin). cbn in Hin.
+    apply elem_of_list_fmap in Hin as ([r' y] & Heq & Hin). cbn in Heq. subst r'.
     apply rel_snap_elem in Hin. congruence.
 Qed.
 
@@ -961,7 +970,8 @@ Proof.
   { intros r e HS. unfold c'. by rewrite graft_lookup, lookup_fmap, graft_snap_lookup, HS. }
   assert (HcN : ∀ r, S !! r = None →
             c' !! (r ++ dst) = None ∨ c' !! (r ++ dst) = Some RDel).
-  { intros r HS. unfold c'. rewrite graft_lookup, lookup_fmap, graft_snap_lookup, HS. cbn.
+  { intros r HS. unfold c'. rewrite graft_lookup, lookup_fmap, graft_snap_lookup, HS.
+    cbn [fmap option_fmap option_map].
     destruct (c !! (r ++ dst)) as [e'|] eqn:Hce.
     - destruct (decide (e' = RDel)) as [->|Hne]; [by right|].
       destruct (Hvis _ _ Hce Hne) as [x Hx]. fold R in Hx.
@@ -973,13 +983,13 @@ Proof.
   assert (Hsub : ∀ r, status R' (r ++ dst) = (λ e, (n, to_raw b e)) <$> S !! r).
   { induction r as [|t r IH].
     - cbn [app]. unfold dst. rewrite status_cons, Hframe by apply suffix_cons_not.
-      rewrite Hpar, Hh. rewrite above_cons. case_decide; [|lia]. cbn [scan]. fold dst.
-      rewrite (HcS [] e0 He0), He0. cbn. destruct e0 as [v|]; cbn; [done|].
+      rewrite Hpar, Hh. unfold R'. rewrite above_cons. case_decide; [|lia]. cbn [scan]. fold dst.
+      pose proof (HcS [] e0 He0) as H0. cbn [app] in H0. rewrite H0, He0. cbn. destruct e0 as [v|]; cbn; [done|].
       destruct b; [done|]. by rewrite (Hb eq_refl).
     - cbn [app]. rewrite status_cons, IH.
-      destruct (S !! r) as [e'|] eqn:HSr; cbn.
+      destruct (S !! r) as [e'|] eqn:HSr; cbn [fmap option_fmap option_map].
       + destruct (holds (r ++ dst) (to_raw b e') t) eqn:Hht.
-        * rewrite above_cons. case_decide; [|lia]. rewrite (above_idx_lt n) by done.
+        * unfold R'. rewrite above_cons. case_decide; [|lia]. rewrite (above_idx_lt n) by done.
           rewrite scan_single. change (t :: r ++ dst) with ((t :: r) ++ dst).
           destruct (S !! (t :: r)) as [e|] eqn:HS.
           -- rewrite (HcS _ _ HS). cbn. by destruct e.
@@ -991,11 +1001,152 @@ Proof.
   split; [done|]. split; [done|]. split; [done|]. split.
   - unfold c'. rewrite graft_lookup, HM, Hroot, carr_lookup by (by intros ?%suffix_nil_inv).
     case_decide as Ha; [|done]. by apply elem_of_ancestors in Ha as (? & _).
-  - intros p e Hp Hne. fold R'. destruct (decide (under dst p)) as [[r ->]|Hu].
+  - intros p e Hp Hne. fold c' R'. destruct (decide (under dst p)) as [[r ->]|Hu].
     + rewrite Hsub. destruct (S !! r) as [e'|] eqn:HS; [done|].
       destruct (HcN _ HS) as [Hn|Hn]; congruence.
     + rewrite Hframe by done. unfold c' in Hp. rewrite graft_lookup, HM in Hp by done.
       destruct (c !! p) as [e1|] eqn:Hcp.
       * injection Hp as ->. by eapply Hvis.
       * rewrite carr_lookup in Hp. case_decide; [|done]. by apply Hanc.
+Qed.
+
+Lemma tget_ne (T : tree) (x : path) : x ≠ [] → tget T x = T !! x.
+Proof. by destruct x. Qed.
+
+Lemma app_ne_nil_r {A} (r k : list A) : k ≠ [] → r ++ k ≠ [].
+Proof. intros Hk H. apply app_eq_nil in H as [_ ?]. done. Qed.
+
+Lemma holds_transfer (r src dst : path) ep te b t :
+  src ≠ [] → dst ≠ [] → is_node_path src = true → is_node_path dst = true →
+  erase (Some (0, ep)) = Some te →
+  holds (r ++ src) ep t = true → holds (r ++ dst) (to_raw b te) t = true.
+Proof.
+  intros Hs Hd Hns Hnd He Hh.
+  destruct src as [|[[] ks] src']; [done|done|].
+  destruct dst as [|[[] kd] dst']; [done|done|].
+  destruct r as [|[[] kr] r']; cbn in *.
+  - destruct ep; cbn in He; [done| |]; by injection He as <-.
+  - done.
+  - destruct ep; cbn in He; [done| |]; by injection He as <-.
+Qed.
+
+Lemma copy_refines R T (src dst : path) :
+  Sim R T → is_node_path src = true → is_node_path dst = true →
+  refines (m_copy R src dst) (t_copy T src dst).
+Proof.
+  intros HS Hns Hnd. pose proof (viewmap_eq R T HS) as Hvm.
+  destruct HS as (HI & HR & Hroot). unfold m_copy, t_copy. rewrite Hvm.
+  destruct src as [|ss spar]; [done|]. destruct dst as [|s dpar]; [done|].
+  set (src := ss :: spar) in *. set (dst := s :: dpar) in *.
+  rewrite <-(Rel_lookup _ _ src HR), <-(Rel_lookup _ _ dst HR) by done.
+  destruct (status R src) as [[isrc esrc]|] eqn:Hsrc; [|done].
+  assert (esrc ≠ RDel) as Hne by (intros ->; by apply status_not_del in Hsrc).
+  assert (∃ te, erase (Some (isrc, esrc)) = Some te) as [te Hte]
+    by (destruct esrc; cbn; eauto; done).
+  rewrite Hte.
+  destruct (status R dst) as [[idst edst]|] eqn:Hdst.
+  { assert (∃ te', erase (Some (idst, edst)) = Some te') as [te' ->]; [|done].
+    destruct edst; cbn; eauto. by apply status_not_del in Hdst. }
+  cbn [erase].
+  set (deep := match esrc with RGroup _ => true | _ => false end).
+  pose proof (mkgroups_spec deep dpar (node_path_tail _ _ Hnd) R T HI HR) as H.
+  destruct (m_mkgroups deep R dpar) as [[R1 cr]|], (t_mkgroups T dpar) as [T1|]; try done.
+  destruct H as (HI1 & HR1 & (lb & b & Hpar & _) & Hfr & Hr & _).
+  destruct R1 as [|[n c1] rest1]; [by destruct HI1|].
+  apply Inv_cons in HI1 as [Htop Hwf].
+  set (S := rel_snap T src).
+  assert (HS0 : S !! [] = Some te).
+  { unfold S. rewrite rel_snap_lookup. cbn [app]. rewrite <-(Rel_lookup _ _ src HR) by done.
+    by rewrite Hsrc. }
+  assert (Hdst1 : status ((n, c1) :: rest1) dst = None).
+  { rewrite Hfr; [done|]. apply suffix_cons_not. }
+  destruct (graft_sub_status n c1 rest1 S (is_patch ((n, c1) :: rest1)) s dpar lb b)
+    as (Hframe & Hsub & Htop'); try done.
+  { by apply node_path_holds_group. }
+  { by destruct rest1. }
+  { intros t r e HSe. unfold S in HSe |- *. rewrite rel_snap_lookup in HSe |- *.
+    change ((t :: r) ++ src) with (t :: r ++ src) in HSe.
+    pose proof (HR (t :: r ++ src)) as Hx. cbn [tget] in Hx. rewrite HSe in Hx.
+    unfold vget in Hx.
+    destruct (status R (t :: r ++ src)) as [[i ex]|] eqn:Hst; [|done].
+    destruct (status_parent R t (r ++ src)) as (lb' & ep & Hp & Hh); [by rewrite Hst|].
+    assert (ep ≠ RDel) as Hnep by (intros ->; by apply status_not_del in Hp).
+    assert (∃ te', erase (Some (0, ep)) = Some te') as [te' Hte']
+      by (destruct ep; cbn; eauto; done).
+    exists te'. split.
+    - rewrite <-tget_ne by (by apply app_ne_nil_r). rewrite <-HR. unfold vget. rewrite Hp.
+      by destruct ep.
+    - eapply (holds_transfer r src dst); try done. }
+  cbn [with_top]. fold dst. split; [by apply Inv_cons|]. split.
+  - intros x. unfold vget. destruct (decide (under dst x)) as [[r ->]|Hu].
+    + rewrite Hsub, tget_ne by (by apply app_ne_nil_r).
+      rewrite lookup_union, graft_snap_lookup.
+      destruct (S !! r) as [e|] eqn:HSr; cbn [fmap option_fmap option_map].
+      * rewrite erase_to_raw. by destruct (T1 !! (r ++ dst)).
+      * rewrite <-tget_ne by (by apply app_ne_nil_r). rewrite <-HR1. unfold vget.
+        rewrite (status_none_under _ dst (r ++ dst)); [|done|by eexists].
+        done.
+    + rewrite Hframe by done. destruct x as [|t y]; [apply (HR1 [])|].
+      cbn [tget]. rewrite lookup_union, graft_snap_None by done.
+      rewrite <-(Rel_lookup _ _ (t :: y) HR1) by done.
+      by destruct (erase (status _ (t :: y))).
+  - rewrite lookup_union, graft_snap_None by (by intros ?%suffix_nil_inv).
+    rewrite (Hr Hroot). done.
+Qed.
+
+Lemma move_refines R T (src dst : path) :
+  Sim R T → is_node_path src = true → is_node_path dst = true →
+  refines (m_move R src dst) (t_move T src dst).
+Proof.
+  intros HS Hns Hnd. unfold m_move, t_move. case_decide; [done|].
+  pose proof (copy_refines R T src dst HS Hns Hnd) as Hc.
+  destruct (m_copy R src dst) as [R1|], (t_copy T src dst) as [T1|]; try done.
+  by apply delete_refines.
+Qed.
+
+(** ** One step of any operation, any history *)
+
+Lemma step_refines R T o :
+  Sim R T → Sim (m_step R o).1 (t_step T o).1 ∧ (m_step R o).2 = (t_step T o).2.
+Proof.
+  intros HS. destruct o as [q|q v|q|p k v|p k|s d|s d|]; try (by apply step_refines_basic).
+  - unfold m_step, t_step. apply (pack_refines R T); [done|].
+    destruct (is_node_path s) eqn:Hs; [|done]. destruct (is_node_path d) eqn:Hd; [|done].
+    by apply copy_refines.
+  - unfold m_step, t_step. apply (pack_refines R T); [done|].
+    destruct (is_node_path s) eqn:Hs; [|done]. destruct (is_node_path d) eqn:Hd; [|done].
+    by apply move_refines.
+Qed.
+
+Lemma fold_refines ops : ∀ R T, Sim R T →
+  Sim (foldl (λ R o, (m_step R o).1) R ops) (foldl (λ T o, (t_step T o).1) T ops).
+Proof.
+  induction ops as [|o ops IH]; intros R T HS; [done|]. cbn [foldl].
+  apply IH. by apply step_refines.
+Qed.
+
+Lemma run_refines ops : Sim (run_m ops) (run_t ops).
+Proof. apply fold_refines, init_sim. Qed.
+
+Lemma transparent ops :
+  Inv (run_m ops) ∧
+  (∀ p, vget (run_m ops) p = tget (run_t ops) p) ∧
+  viewmap (run_m ops) = run_t ops ∧
+  (∀ o, (m_step (run_m ops) o).2 = (t_step (run_t ops) o).2).
+Proof.
+  pose proof (run_refines ops) as HS.
+  split; [apply HS|]. split; [apply HS|]. split; [by apply viewmap_eq|].
+  intros o. by apply step_refines.
+Qed.
+
+Lemma boundaries_unobservable ops1 ops2 :
+  strip_bnd ops1 = strip_bnd ops2 →
+  viewmap (run_m ops1) = viewmap (run_m ops2) ∧
+  (∀ o, (m_step (run_m ops1) o).2 = (m_step (run_m ops2) o).2).
+Proof.
+  intros Heq.
+  destruct (transparent ops1) as (_ & _ & Hv1 & Hr1).
+  destruct (transparent ops2) as (_ & _ & Hv2 & Hr2).
+  assert (run_t ops1 = run_t ops2) as Ht by (by rewrite <-(run_t_strip ops1), Heq, run_t_strip).
+  split; [by rewrite Hv1, Hv2|]. intros o. by rewrite Hr1, Hr2, Ht.
 Qed.
